@@ -115,6 +115,19 @@ pub proof fn lemma_lvr_nonzero(s: Seq<u64>, lo: int, hi: int, j: int)
     assert(bp(j - lo) * lvr(s, j, hi) >= 1) by(nonlinear_arith) requires bp(j - lo) >= 1, lvr(s, j, hi) >= 1;
 }
 
+// the ring identity behind a left shift by L limbs and b bits (monomial rearrangements only: one large nonlinear query took 76 s)
+pub proof fn lemma_shl_algebra(a0: int, h: int, bk: int, bl: int, pb: int, r1: int, carry: int)
+    requires r1 + bk * carry == a0 * pb
+    ensures (a0 + bk * h) * (bl * pb) == bl * r1 + (bk * bl) * (carry + h * pb)
+{
+    lemma_mul_is_distributive_add_other_way(bl * pb, a0, bk * h);
+    assert(a0 * (bl * pb) == bl * (a0 * pb)) by(nonlinear_arith);
+    lemma_mul_is_distributive_add(bl, r1, bk * carry);
+    lemma_mul_is_distributive_add(bk * bl, carry, h * pb);
+    assert(bl * (bk * carry) == (bk * bl) * carry) by(nonlinear_arith);
+    assert((bk * h) * (bl * pb) == (bk * bl) * (h * pb)) by(nonlinear_arith);
+}
+
 // N14-style wrapper: `limbs[1..].iter().any(|&limb| limb != 0)` is routed through this function whose body IS that expression.
 // ASSUMED (label A, std's Iterator::any on a sub-slice): some limb above the first is non-zero. Kani: core_specs (lengths <= 6).
 #[verifier::external_body]
@@ -164,9 +177,8 @@ impl<const BITS: usize, const LIMBS: usize> Uint<BITS, LIMBS> {
         assert(a.val() as int == A0 + bp(k) * H);
         let T = carry + H * pb;
         assert(T >= 0) by(nonlinear_arith) requires T == carry + H * pb, carry >= 0, H >= 0, pb > 0;
-        assert((a.val() as int) * sh == Rf + bp(n) * T) by(nonlinear_arith)
-            requires a.val() as int == A0 + bp(k) * H, sh == bp(L) * pb, Rf == bp(L) * R1, R1 + bp(k) * carry == A0 * pb,
-                bp(n) == bp(k) * bp(L), T == carry + H * pb;
+        lemma_shl_algebra(A0, H, bp(k), bp(L), pb, R1, carry);
+        assert((a.val() as int) * sh == Rf + bp(n) * T);
         // bp(n) is a multiple of 2^BITS
         let d = (64 * n - BITS) as nat;
         lemma_pow2_adds(BITS as nat, d);
